@@ -29,7 +29,7 @@ import (
 	"time"
 )
 
-var admKafkaVersions = []KafkaVersion{V0_10_1_0, V0_10_2_0, V0_11_0_0, V1_0_0_0, V2_0_0_0, V2_4_0_0}
+var admKafkaVersions = []KafkaVersion{V0_10_1_0, V0_10_2_0, V0_11_0_0, V1_0_0_0, V2_0_0_0, V2_4_0_0, V0_10_2_1}
 
 const admTopic = "t"
 
@@ -53,6 +53,8 @@ type admCase struct {
 	Own    [][]int         `json:"own"`    // [item, broker]
 	Itemv  [][]int         `json:"itemv"`  // [item, code]
 	Bfault [][]interface{} `json:"bfault"` // [broker, "none"|"conn"|"inc"]
+	All    bool            `json:"all"`    // ListConsumerGroupOffsets: nil partition map (all partitions)
+	Gerr   int             `json:"gerr"`   // ListConsumerGroupOffsets: group-level error code of the coordinator
 }
 
 type admEvent struct {
@@ -358,12 +360,29 @@ func (cl *admCluster) handleSpread(me int32, api string, req *request) encoderWi
 		}
 		res = dg
 	case *OffsetFetchRequest:
+		// a version-faithful coordinator: the group has committed offsets for partitions 0..2;
+		// from v2 on a null partition list means all of them and a group-level error is reported
+		// at the top level; before v2 only the listed partitions are answered and a group-level
+		// error is reported on each of them
 		of := &OffsetFetchResponse{Version: r.Version}
-		for topic, parts := range r.partitions {
+		asked := r.partitions
+		if asked == nil && r.Version >= 2 {
+			asked = map[string][]int32{admTopic: {0, 1, 2}}
+		}
+		for topic, parts := range asked {
 			for _, p := range parts {
 				items = append(items, int(p))
-				of.AddBlock(topic, p, &OffsetFetchResponseBlock{Offset: 5, Err: codeOf(int(p))})
+				switch {
+				case cl.c.Gerr != 0 && r.Version >= 2:
+				case cl.c.Gerr != 0:
+					of.AddBlock(topic, p, &OffsetFetchResponseBlock{Offset: -1, Err: KError(cl.c.Gerr)})
+				default:
+					of.AddBlock(topic, p, &OffsetFetchResponseBlock{Offset: 5, Err: codeOf(int(p))})
+				}
 			}
+		}
+		if cl.c.Gerr != 0 && r.Version >= 2 {
+			of.Err = KError(cl.c.Gerr)
 		}
 		res = of
 	case *DeleteGroupsRequest:
@@ -492,7 +511,7 @@ func (cl *admCluster) runCase(c *admCase, idx int) (kv, []admEvent, bool) {
 		for _, p := range c.Bfault {
 			bf = append(bf, []interface{}{int(p[0].(float64)), p[1]})
 		}
-		reset = kv{"fam": "spread", "op": c.Op, "kv": c.Kv, "own": admPairs(c.Own), "itemv": admPairs(c.Itemv), "bfault": bf}
+		reset = kv{"fam": "spread", "op": c.Op, "kv": c.Kv, "own": admPairs(c.Own), "itemv": admPairs(c.Itemv), "bfault": bf, "all": c.All, "gerr": c.Gerr}
 	}
 
 	conf := NewConfig()
@@ -653,7 +672,11 @@ func admInvoke(admin ClusterAdmin, c *admCase, filedMu *sync.Mutex, filed *[][]i
 		for _, i := range items {
 			ps = append(ps, int32(i))
 		}
-		resp, err := admin.ListConsumerGroupOffsets(admGroupName(0), map[string][]int32{admTopic: ps})
+		tps := map[string][]int32{admTopic: ps}
+		if c.All {
+			tps = nil // every partition the group has offsets for
+		}
+		resp, err := admin.ListConsumerGroupOffsets(admGroupName(0), tps)
 		rep := []int{}
 		if resp != nil {
 			for _, i := range items {
